@@ -4432,4 +4432,25 @@ theorem C07_planted_document_inter_ref_family_partial (env : Env) (pre post : Li
     obtain ⟨x', e1, kx, -⟩ := hf.single_inv
     exact g _ (fun s0 => parseInterRef_invalid top tcp inner [] s0 sh'.hop sh'.hcp sh'.hin x' e1 (by rw [kx]; exact h1))
 
+/-! non-vacuity: `Use @&(x)y{} now` under COMPONENT_MODIFIERS + INTERMEDIATE_PREPARATIONS given by specification tokens:
+    the hypotheses hold (last clause: the group holds one word); in the document `>> source: grandma` / blank / that
+    step the evaluated report is exactly `inter-ref-invalid` ⟨27,28⟩. -/
+def C07_vEnvI : Env := { C07_coreEnv with ext := ⟨Gen.EXT_COMPONENT_MODIFIERS ||| Gen.EXT_INTERMEDIATE_PREPARATIONS⟩ }
+theorem C07_vShapeI : PlShapeI C07_vEnvI.ext .at (tk .at ['@']) [] (tk .and ['&']) (tk .openParen ['('])
+    [tk .word ['x']] (tk .closeParen [')']) [] [tk .word ['y']] (tk .openBrace ['{']) [] (tk .closeBrace ['}'])
+    (C07_plPost.flatMap SegX.spell) :=
+  ⟨rfl, by decide, by decide, (by intro t h; cases h), rfl, rfl, (by intro t h; simp at h; subst h; decide), rfl,
+   (by intro t h; cases h), (by intro t h; simp at h; subst h; decide), (by intro t h; simp at h; subst h; decide),
+   rfl, (by intro t h; cases h), rfl, (by intro t h; simp [C07_plPost, SegX.spell] at h; subst h; decide)⟩
+example (T tpre tB tpost : List Tok) (hT : T = tpre ++ (tB ++ tpost))
+    (hsB : Spells tB (c07p_comp (tk .at ['@']) (c07i_mods [] (tk .and ['&']) (tk .openParen ['(']) [tk .word ['x']]
+      (tk .closeParen [')']) []) [tk .word ['y']] (tk .openBrace ['{']) [] (tk .closeBrace ['}'])))
+    (hpost : Spells tpost (C07_plPost.flatMap SegX.spell)) (hrun : RunAt (baseOff T) T) :=
+  (C07_planted_document_inter_ref_family_partial (α := Rat) C07_vEnvI C07_plPre' C07_plPost _ _ _ _ _ _ _ _ _
+    C07_vShapeI (by intro t h; cases h) (Or.inl (by decide))
+    ⟨tk .word ['y'], by simp, rfl, 'y', by simp [tk], by decide⟩ T tpre tB tpost hT hsB hpost hrun).2.2.2.2.2
+    (tk .word ['x']) (by decide) (by decide)
+example : (parseRecipe (α := Rat) C07_vEnvI ">> source: grandma\n\nUse @&(x)y{} now\n".toList).diags.toList =
+    [⟨.error, .parse, "inter-ref-invalid", [⟨27, 28⟩]⟩] := by decide +kernel
+
 end Cook
